@@ -90,3 +90,11 @@ Theorem c08_scan_magic_offsets_is_source :
     roots_end_len = 24%Z.
 Proof. exact Decisions.scan_magic_offsets. Qed.
 Print Assumptions c08_scan_magic_offsets_is_source.
+
+Theorem c08_revert_order_is_source :
+  let l := call_list "Store.FlushRevert" in
+  before "s.readRootsScan" "s.file.Truncate" l = true /\
+  count_occ string_dec l "s.file.Truncate" = 1%nat /\
+  before "atomic.AddInt64" "s.readRootsScan" l = true.
+Proof. exact Decisions.revert_order. Qed.
+Print Assumptions c08_revert_order_is_source.
